@@ -73,6 +73,7 @@ func Drive(o DriverOpts) int {
 	if cfg.HardSec == 0 {
 		cfg.HardSec = 120
 	}
+	cfg.Env = append(append([]string{}, cfg.Env...), "VERIF_DIR="+o.VerifDir)
 	outDir := filepath.Join(o.VerifDir, "out", o.Prop)
 	os.RemoveAll(outDir)
 	os.MkdirAll(outDir, 0o755)
